@@ -134,14 +134,18 @@ def run(prop, tier):
                             metas.append({"proto": "h2", "cuts": [], "trunc": t, "params": [ni, status, method, n, frames, hs], "out": {"kind": out["kind"], "exc": out.get("exc")}})
                         # stream reset after k DATA frames
                         if method == "GET" and status == 200 and frames:
+                            # every error code a server may put into RST_STREAM, NO_ERROR included: a reset
+                            # before END_STREAM is never a complete body, whatever the code says
+                            codes = (0, 2, 8) if quick else (0, 1, 2, 5, 7, 8, 11, 13)
                             for k in range(0, len(frames)):
-                                r2 = F.h2_case_and_run(ni, status, method, n, frames, hs, None, "rst", rng, trunc_at=k)
+                              for code in codes:
+                                r2 = F.h2_case_and_run(ni, status, method, n, frames, hs, None, "rst", rng, trunc_at=k, rst_code=code)
                                 if r2 is None:
                                     continue
                                 case_r, sent_r, _, _, (obr, outr) = r2
                                 evals += 1
                                 traces.append(F.encode(case_r, [], obr, outr, sent_r))
-                                metas.append({"proto": "h2", "rst_after": k, "params": [ni, status, method, n, frames, hs], "out": {"kind": outr["kind"], "exc": outr.get("exc")}})
+                                metas.append({"proto": "h2", "rst_after": k, "rst_code": code, "params": [ni, status, method, n, frames, hs], "out": {"kind": outr["kind"], "exc": outr.get("exc")}})
     verdicts, stats = F.validate(traces)
     rejected = [(t, m, v) for t, m, v in zip(traces, metas, verdicts) if v[0] != "ACCEPT"]
     accepted = [t for t, v in zip(traces, verdicts) if v[0] == "ACCEPT"]
